@@ -1,0 +1,9 @@
+//go:build !verif
+
+// Package verifyield marks the boundaries between critical sections at which a
+// deterministic simulation may park a goroutine and decide who runs next. With
+// the build tag off Point is an empty function.
+package verifyield
+
+// Point is a scheduling point (no-op in normal builds).
+func Point(site string) {}
